@@ -26,7 +26,10 @@ Worlds == <<
   [c |-> Cfg(<<0, 0, 0>>, <<0, 0, 0>>, FALSE, FALSE, TRUE),  tlA |-> 3, tlB |-> 0, tlE2 |-> 0, e2first |-> TRUE,  key0 |-> 1],  \* idle animator spawned first
   [c |-> Cfg(<<1, 2, 0>>, <<2, 0, 1>>, TRUE, TRUE, FALSE),  tlA |-> 0, tlB |-> 8, tlE2 |-> 0, e2first |-> FALSE, key0 |-> 1],
   [c |-> Cfg(<<8, 6, 14>>, <<2, 3, 1>>, TRUE, TRUE, FALSE), tlA |-> 0, tlB |-> 1, tlE2 |-> 0, e2first |-> FALSE, key0 |-> 2],  \* key 3: merged, delays 1 / 2
-  [c |-> Cfg(<<5, 0, 7>>, <<0, 1, 0>>, TRUE, FALSE, TRUE),  tlA |-> 0, tlB |-> 0, tlE2 |-> 8, e2first |-> FALSE, key0 |-> 1] >>  \* second entity ends early
+  [c |-> Cfg(<<5, 0, 7>>, <<0, 1, 0>>, TRUE, FALSE, TRUE),  tlA |-> 0, tlB |-> 0, tlE2 |-> 8, e2first |-> FALSE, key0 |-> 1],    \* second entity ends early
+  \* a second entity, spawned FIRST, whose animator starts Playing (delay 1 = the total of key 1) on the very frame the governed one ends
+  \* (its event precedes the Ended event the chain has to act on)
+  [c |-> Cfg(<<8, 1, 0>>, <<2, 0, 0>>, TRUE, FALSE, TRUE),  tlA |-> 0, tlB |-> 0, tlE2 |-> 9, e2first |-> TRUE,  key0 |-> 1] >>
 W0 == Worlds[KW]
 Ops == IF W0.c.HasSel
        THEN [op : {"key"}, k : 1..3] \cup [op : {"enable"}, T : {"A"}, b : BOOLEAN] \cup [op : {"reset"}, T : {"A"}]
